@@ -9,7 +9,7 @@ normal-equation and least-squares form) in-process on generated SPD systems; the
 `psvdriver C11` as bit patterns, are converted to exact rationals and must
   * pass the verified `kktCheck` with per-component tolerance (tolS = the solver's stated tolerance)
       Cholesky-based solvers: tol_i = tolS + negpart*sum_j|A_ij| + 64 n 2^-53 (sum_j |A_ij| x_j + |b_i|)   (componentwise)
-      Lawson-Hanson (QR):     tol_i = tolS + 64 n 2^-53 (sum_j ||A_:j||_1 x_j + ||b||_1)                    (column-normwise),
+      Lawson-Hanson (QR):     tol_i = tolS + 64 max(n,rows) 2^-53 sum_i(sum_j |A|_ij x_j + |b|_i)           (column-normwise; |A|=|M|'|M|, |b|=|M|'|v| in least-squares form),
   * be >= -tolS (exactly >= 0 for nnls_normal_block3, the solver used by fitting),
   * be within the kkt_tol_dist distance of refNnls (exact active-set enumeration, n <= 12):
       1/2 (x-x*)'A(x-x*) <= sum_i tol_i (x_i + x*_i).
@@ -225,7 +225,7 @@ def finish(ctx, acc, dist, consts):
     ctx.assumptions += [
         "positive definiteness of the generated systems: exact certificate (symmetric, all elimination pivots > 0 in Rat) for n <= 12; Sylvester's criterion itself is not formalised; larger systems are B'B + I in exact integer arithmetic",
         "certificate checking: the solvers' convergence for all inputs is not proved (and is false at the iteration caps); iteration-cap exits are counted separately",
-        "tolerance tol_i = tolS + negpart*sum|A_ij| + 64 n 2^-53 (sum_j |A_ij| x_j + |b_i|) (Cholesky-based solvers) / tolS + 64 n 2^-53 (sum_j ||A_:j||_1 x_j + ||b||_1) (Lawson-Hanson, QR is not invariant under scaling): the rounding term is an envelope for CHOLMOD/SPQR backward error, measured worst componentwise ratio reported per solver",
+        "tolerance tol_i = tolS + negpart*sum|A_ij| + 64 n 2^-53 (sum_j |A_ij| x_j + |b_i|) (Cholesky-based solvers) / tolS + 64 max(n,rows) 2^-53 sum_i(sum_j |A|_ij x_j + |b|_i) (Lawson-Hanson: QR is not invariant under scaling; |A|=|M|'|M|, |b|=|M|'|v| in least-squares form): the rounding term is an envelope for CHOLMOD/SPQR backward error, measured worst componentwise ratio reported per solver",
         "OMP_NUM_THREADS=1; a scheduling-dependent hang of walk_descents (property C12) is retried up to 3 times and counted",
         "Lawson-Hanson relies on SuiteSparseQR's default rank tolerance; badly scaled systems keep column norms within 1e6 of each other (A entries over 1e+-6)",
     ]
